@@ -297,13 +297,3 @@ Module Refuted.
   Proof. split; [vm_compute; reflexivity | vm_compute; discriminate]. Qed.
 End Refuted.
 
-(* ---- the rename loop of update_defined_name parses the STORED (English) formulas with the ACTIVE
-   language (model.rs, under "new_name != df.name": the parser keeps self.locale / self.language;
-   rename_sheet_by_index and duplicate_sheet were repaired in commit 9f60d5e, this loop was not).
-   At the level of names: the stored text of TRIM(x), read with the French tables, is MIRR(x) —
-   the collision of C10_fallback actualised. *)
-Lemma rename_name_reparse_refuted :
-  let e := EFun 137 [EStr [120]] in
-  image Persist.m_rc1 (names_of 0) Example.env1 e = true /\
-  parse Persist.m_rc1 (names_of 3) Example.env1 (print Persist.m_rc1 (names_of 0) e) = Some (EFun 222 [EStr [120]], []).
-Proof. split; vm_compute; reflexivity. Qed.
